@@ -54,6 +54,13 @@ func (dp *DataProcessor) Process() {
 
 	// Main processing loop
 	for {
+		// The receive runs under consumeMux: channel expansion holds it while it
+		// migrates buffered rows to the larger channel, so the consumer can never
+		// take a row out of the middle of a migration (rows already moved would
+		// then be processed after it). The channel reference is read under the
+		// same lock so it is never stale after an expansion.
+		dp.stream.consumeMux.Lock()
+
 		// Safely access dataChan using read lock
 		dp.stream.dataChanMux.RLock()
 		currentDataChan := dp.stream.dataChan
@@ -61,20 +68,24 @@ func (dp *DataProcessor) Process() {
 
 		// Check if dataChan is nil (stream has been stopped)
 		if currentDataChan == nil {
+			dp.stream.consumeMux.Unlock()
 			return
 		}
 
 		select {
 		case data, ok := <-currentDataChan:
+			dp.stream.consumeMux.Unlock()
 			if !ok {
 				// Channel is closed
 				return
 			}
 			dp.processItem(data)
 		case <-dp.stream.done:
+			dp.stream.consumeMux.Unlock()
 			// Received close signal
 			return
 		case <-ticker.C:
+			dp.stream.consumeMux.Unlock()
 			// Timer triggered, do nothing, just prevent CPU spinning
 		}
 	}
